@@ -1108,3 +1108,28 @@ Proof.
   - rewrite bcast_right1 by (rewrite map_length; exact Hf). cbn [bind]. rewrite map_map. reflexivity.
   - cbn [bind]. unfold day_of. do 3 f_equal. apply map_ext. intros b. rewrite andb_true_r. reflexivity.
 Qed.
+
+(* ====================================================================== the code before the fixes *)
+(* F-C20c: with an empty map an out-of-range entry made the old code raise IndexError instead
+   of answering -1 *)
+Lemma period_offsets_prefix_refuted_proof :
+  exists pbd days fl, length fl = length days /\ offsets_pre pbd days fl /\
+    get_period_offsets_prefix pbd days fl = OOB 2 /\
+    get_period_offsets pbd days (Some fl) = Ok (offsets_spec pbd days fl) /\
+    offsets_spec pbd days fl = [-1].
+Proof.
+  exists [], [3], [false]. split; [reflexivity|]. split.
+  - intros d [H|[]]. discriminate.
+  - split; [vm_compute; reflexivity|]. split; vm_compute; reflexivity.
+Qed.
+
+(* F-C20a: the int8 filter [0,0,1,1] selected ts[0], ts[0], ts[1], ts[1] *)
+Lemma get_days_int8_filter_refuted_proof :
+  exists ts f o, length f = length ts /\ origin_spec ts f None o /\
+    get_days_origin_int8_prefix ts f <> Ok o.
+Proof.
+  exists [172800; 86400; 5; 259200], [false; false; true; true], 5.
+  split; [reflexivity|]. split.
+  - cbn. split; [left; reflexivity|]. intros x [<-|[<-|[]]]; lia.
+  - vm_compute. discriminate.
+Qed.
